@@ -108,6 +108,95 @@ def main():
                         fail("conflict stages do not round trip", {"written": list(stages), "read": list(have), "version": ver})
                 except Exception as e:  # noqa: BLE001
                     fail("conflict round trip raised", {"stages": list(stages), "version": ver, "exc": repr(e)[:200]})
+        # (b2) flag bits, field widths, readers with skip_hash, extensions
+        VALID = 0x8000                                     # FLAG_VALID: git's assume-unchanged bit
+        for ver in (2, 3, 4):
+            for fl, ext in ((VALID, 0), (VALID, IX.EXTENDED_FLAG_SKIP_WORKTREE if ver > 2 else 0), (0, 0)):
+                cases += 1
+                path = os.path.join(d, f"flags{ver}_{fl}_{ext}")
+                sides = {2: entry(2, flags=fl), 3: entry(3, flags=fl)}
+                ents = {b"a": entry(1, flags=fl, ext=ext), b"a/conflict": IX.ConflictedIndexEntry(ancestor=None, this=sides[2], other=sides[3]), b"z": entry(2)}
+                try:
+                    idx = IX.Index(path, read=False, version=ver)
+                    for k_, v_ in ents.items():
+                        idx[k_] = v_
+                    idx.write()
+                    back = IX.Index(path)
+                    got_a, got_c = back[b"a"], back[b"a/conflict"]
+                    if (got_a.flags & VALID) != fl or got_a.extended_flags != ext or (got_c.this.flags & VALID) != fl or (got_c.other.flags & VALID) != fl or (back[b"z"].flags & VALID):
+                        fail("flag bits do not round trip (assume-valid / extended flags)", {"version": ver, "flags": fl, "extended": ext, "read_flags": [got_a.flags, got_c.this.flags, back[b"z"].flags], "read_extended": got_a.extended_flags})
+                    # a reader opened with skip_hash still verifies a trailer that IS a checksum (non-zero)
+                    raw = bytearray(open(path, "rb").read())
+                    for off in (20, len(raw) // 2, len(raw) - 25):
+                        cases += 1
+                        bad = bytearray(raw)
+                        bad[off] ^= 0x01
+                        open(path + ".bad", "wb").write(bytes(bad))
+                        for sk in (False, True):
+                            try:
+                                IX.Index(path + ".bad", skip_hash=sk)
+                                fail("damaged index accepted", {"version": ver, "offset": off, "reader_skip_hash": sk})
+                            except Exception:  # noqa: BLE001
+                                pass
+                except Exception as e:  # noqa: BLE001
+                    fail("flag round trip raised", {"version": ver, "flags": fl, "extended": ext, "exc": repr(e)[:200]})
+        # stat fields wider than the 32-bit on-disk fields keep their low 32 bits (git: truncation, not saturation, not an error)
+        for ver in (2, 3, 4):
+            for ino, dev, size, mt in ((2 ** 32 + 5, 2 ** 33 + 7, 2 ** 32 + 9, 1700000000.5), (2 ** 40 + 1, 3, 2 ** 35, (2 ** 32 + 1, 5)), (7, 2 ** 32 - 1, 2 ** 32 - 1, -1), (1, 1, 1, (1700000000, 999999999)), (1, 1, 2 ** 32, 5), (1, 1, 3 * 2 ** 32, 5)):
+                cases += 1
+                path = os.path.join(d, f"wide{ver}_{ino}")
+                try:
+                    st = os.stat_result((0o100644, ino, dev, 1, 1000, 100, size, 1700000000, 1700000000, 1700000000))
+                    e = IX.index_entry_from_stat(st, sha)
+                    e = IX.IndexEntry(ctime=e.ctime, mtime=mt, dev=e.dev, ino=e.ino, mode=e.mode, uid=e.uid, gid=e.gid, size=e.size, sha=e.sha, flags=0, extended_flags=0)
+                    idx = IX.Index(path, read=False, version=ver)
+                    idx[b"f"] = e
+                    idx.write()
+                    g = IX.Index(path)[b"f"]
+                    if isinstance(mt, tuple):
+                        want_mt = (mt[0] & 0xFFFFFFFF, mt[1] & 0xFFFFFFFF)
+                    elif isinstance(mt, float):
+                        want_mt = (int(mt) & 0xFFFFFFFF, int((mt - int(mt)) * 10 ** 9))
+                    else:
+                        want_mt = (mt & 0xFFFFFFFF, 0)
+                    got_mt = g.mtime if isinstance(g.mtime, tuple) else (int(g.mtime), int(round((g.mtime - int(g.mtime)) * 10 ** 9)))
+                    want_size = (size & 0xFFFFFFFF) or (0x80000000 if size else 0)          # git's munge_st_size()
+                    if (g.ino, g.dev, g.size) != (ino & 0xFFFFFFFF, dev & 0xFFFFFFFF, want_size) or got_mt != want_mt:
+                        fail("stat fields wider than 32 bits do not read back as their low 32 bits", {"version": ver, "written": [ino, dev, size, repr(mt)], "read": [g.ino, g.dev, g.size, repr(g.mtime)]})
+                except Exception as e_:  # noqa: BLE001
+                    fail("stat fields wider than 32 bits cannot be written", {"version": ver, "written": [ino, dev, size, repr(mt)], "exc": repr(e_)[:200]})
+        # extensions: unknown optional ones survive Index.write -> Index.read byte for byte (empty payload included), in order;
+        # git's lower-case "sdir" marker is read; an unknown REQUIRED (lower-case) one is refused by name, not as a checksum failure
+        for ver in (2, 4):
+            for exts in ([(b"ZZZZ", b"payload")], [(b"ABCD", b""), (b"WXYZ", b"\x00\x01")], [(b"sdir", b"")], [(b"ABCD", b"x"), (b"sdir", b"")]):
+                cases += 1
+                path = os.path.join(d, f"ext{ver}_{len(exts)}_{exts[0][0].decode()}")
+                try:
+                    idx = IX.Index(path, read=False, version=ver)
+                    idx[b"f"] = entry(1)
+                    idx._extensions = [IX.IndexExtension.from_raw(sig, data) for sig, data in exts]
+                    idx.write()
+                    back = IX.Index(path)
+                    got = [(x.signature, x.to_bytes()) for x in back._extensions]
+                    if got != exts or list(back) != [b"f"]:
+                        fail("index extensions do not survive write -> read", {"version": ver, "written": [(a.decode(), b.hex()) for a, b in exts], "read": [(a.decode(), b.hex()) for a, b in got]})
+                except Exception as e_:  # noqa: BLE001
+                    fail("index with extensions cannot be read back", {"version": ver, "written": [(a.decode(), b.hex()) for a, b in exts], "exc": repr(e_)[:200]})
+            cases += 1
+            path = os.path.join(d, f"extreq{ver}")
+            try:
+                idx = IX.Index(path, read=False, version=ver)
+                idx[b"f"] = entry(1)
+                idx._extensions = [IX.IndexExtension(b"link", b"0123456789")]
+                idx.write()
+                try:
+                    IX.Index(path)
+                    fail("an index with an unknown REQUIRED extension is read as if the extension were not there", {"version": ver, "signature": "link"})
+                except Exception as e_:  # noqa: BLE001
+                    if "hecksum" in repr(e_) or "hecksum" in type(e_).__name__:
+                        fail("an unknown required extension is reported as a checksum failure", {"version": ver, "exc": repr(e_)[:200]})
+            except Exception as e_:  # noqa: BLE001
+                fail("writing an index with a raw extension raised", {"version": ver, "exc": repr(e_)[:200]})
         git_cases = 0
         if tier == "thorough":
             # (c) spec validation against C git: both directions for v4 path compression
@@ -131,7 +220,8 @@ def main():
                     fail("git misreads a dulwich-written index", {"version": ver})
     print(json.dumps({"name": "c11_roundtrip", "function": "dulwich/index.py path compression + write_index_dict/Index.read", "cases": cases + git_cases,
                       "exhaustive": True, "bound": "path pairs: all strings <= 3 over {a,b,/} squared + long prefixes around 127/128/16511/16512; "
-                      "index files: entry subsets (<= 3) of a 12-path pool x versions 2,3,4 x extended flags; one-bit damage must be rejected"
+                      "index files: entry subsets (<= 3) of a 12-path pool x versions 2,3,4 x extended flags; one-bit damage must be rejected (also by a skip_hash reader when the trailer is a real checksum); "
+                      "assume-valid / extended flag bits on normal and conflict entries; stat fields and times wider than 32 bits; optional, empty, lower-case and unknown required extensions"
                       + ("; git 2.39 cross-check of v2/v3/v4" if tier == "thorough" else ""), "failures": failures, "secs": round(time.time() - t0, 2)}))
 
 
